@@ -428,6 +428,9 @@ func (t *tr) stmt(s ast.Stmt, open [][]Instr) [][]Instr {
 	case *ast.ReturnStmt:
 		var ins []Instr
 		for _, r := range x.Results {
+			if id, ok := r.(*ast.Ident); ok && t.kind == "testify" && t.isRecv(id) {
+				continue // fluent API: the receiver pointer itself is returned, nothing is accessed
+			}
 			ins = append(ins, t.expr(r)...)
 		}
 		if len(ins) == 0 {
